@@ -215,6 +215,29 @@ def harnesses(tier):
     return hs
 
 
+def nested_same_relpath(b, sym):
+    """create over nested histories whose files share history-relative paths and sizes: every recorded digest is that file's digest"""
+    files = {"R/Clips/shot.mov": 1, "R/A002/Clips/shot.mov": 2, "R/A002/B/Clips/shot.mov": 3, "R/other.mov": 4}
+    for f, c in files.items():
+        b.mkfile(f, c, size=7)
+    layout = sym.choose("nested_histories", [["R/A002"], ["R/A002/B", "R/A002"], ["R/A002/B"]])
+    fm = sym.choose("formats", [["md5"], ["c4", "xxh64"]])
+    for c in layout:
+        r = b.run("create", root=c, h=fm)
+        b.require(r.exit == 0, "create-exit-0", str(r))
+    r = b.run("create", root="R", h=fm)
+    b.require(r.exit == 0 and r.exc is None, "create-exit-0", str(r))
+    import posixpath
+    for hr in ["R"] + layout:
+        m = b.manifests(hr)[-1]
+        for rec in m.files():
+            f = posixpath.join(hr, rec.path)
+            for e in rec.entries:
+                b.require(truth(e.digest == b.H(e.fmt, f)), "create-digest", "%s %s in history %s" % (rec.path, e.fmt, hr))
+    r = b.run("verify", root="R")
+    b.require(r.exit == 0, "verify-untouched-exit-0", str(r))
+
+
 def _harnesses(tier):
     quick = tier == "quick"
     max_n = (3 if quick else 16) * MIB + 1
@@ -234,6 +257,9 @@ def _harnesses(tier):
         Harness("c01-entry", entry_points(max_n if not quick else 2 * MIB + 1, fsets), frontier=4, budget_s=1500,
                 what="create -h F.. then verify then `hash` on one file of symbolic length: recorded/printed digests = standard digest of the file",
                 bounds={"file length n": "0..%d" % (max_n if not quick else 2 * MIB + 1), "format sets": fsets}, outside=out),
+        Harness("c01-nested", nested_same_relpath, frontier=3, budget_s=600,
+                what="create over nested histories whose files share history-relative paths and sizes (no digest may be taken over from another file)",
+                bounds={"layouts": 3, "formats": "md5 | c4+xxh64"}, outside=out),
         Harness("c01-codec", codec, mode="unit", frontier=3, budget_s=900,
                 what="real C4.string_digest and C4.bytes_from_string_digest on a symbolic 512-bit value (89 loop exits)",
                 bounds={"v": "0 <= v < 2^512 (all values)", "unwinding": "at most 88 digits: the 89th iteration is infeasible"},
